@@ -18,11 +18,72 @@ theorem brackets_cc : brackets (some ['[', ']']) = .ok (true, true) := rfl
 theorem brackets_letters : brackets (some ['o', 'c']) = .ok (false, true) ∧ brackets (some ['C', 'O']) = .ok (true, false) ∧
     brackets (some []) = .ok (true, false) ∧ brackets Option.none = .ok (true, false) := ⟨rfl, rfl, rfl, rfl⟩
 
-/-- anything else is rejected: a character outside `()oO[]cC`, or not exactly two characters -/
+/-- the general table: two characters `a b` parse iff each is one of `()oO` (open) / `[]cC` (closed), and the pair
+    is then (is `a` a closing-kind character, is `b` one) - all 64 accepted spellings at once -/
+theorem brackets_pair (a b : Char) (l u : Bool) :
+    brackets (some [a, b]) = .ok (l, u) ↔
+      (if l then a ∈ ['[', ']', 'c', 'C'] else a ∈ ['(', ')', 'o', 'O']) ∧
+      (if u then b ∈ ['[', ']', 'c', 'C'] else b ∈ ['(', ')', 'o', 'O']) := by
+  have hc : ∀ (c : Char) (v : Bool), closed c = .ok v ↔ (if v then c ∈ ['[', ']', 'c', 'C'] else c ∈ ['(', ')', 'o', 'O']) := by
+    intro c v
+    unfold closed
+    by_cases h1 : c ∈ ['(', ')', 'o', 'O']
+    · have h2 : c ∉ ['[', ']', 'c', 'C'] := by
+        simp only [List.mem_cons, List.not_mem_nil, or_false] at h1 ⊢
+        rcases h1 with rfl | rfl | rfl | rfl <;> decide
+      cases v <;> simp [h1, h2]
+    · by_cases h2 : c ∈ ['[', ']', 'c', 'C'] <;> cases v <;> simp [h1, h2]
+  simp only [brackets, List.isEmpty_cons, Bool.false_eq_true, if_false]
+  cases ha : closed a with
+  | error e =>
+    have h1 := hc a l
+    simp only [ha] at h1
+    simp only [bind, Except.bind]
+    constructor
+    · intro h; cases h
+    · intro h; exact absurd (h1.mpr h.1) (by simp)
+  | ok va =>
+    cases hb : closed b with
+    | error e =>
+      have h1 := hc b u
+      simp only [hb] at h1
+      simp only [bind, Except.bind]
+      constructor
+      · intro h; cases h
+      · intro h; exact absurd (h1.mpr h.2) (by simp)
+    | ok vb =>
+      simp only [bind, Except.bind, pure, Except.pure]
+      have h1 := hc a l; have h2 := hc b u
+      rw [ha] at h1; rw [hb] at h2
+      constructor
+      · intro h
+        simp only [Except.ok.injEq, Prod.mk.injEq] at h
+        exact ⟨h1.mp (by rw [h.1]), h2.mp (by rw [h.2])⟩
+      · intro h
+        have e1 := h1.mpr h.1; have e2 := h2.mpr h.2
+        simp only [Except.ok.injEq] at e1 e2
+        rw [e1, e2]
+
+/-- anything else is rejected: a character outside `()oO[]cC` (in either place), or not exactly two characters -/
 theorem brackets_reject_char (a b : Char) (h : a ∉ ['(', ')', 'o', 'O', '[', ']', 'c', 'C']) :
     brackets (some [a, b]) = .error .value := by
   simp only [List.mem_cons, List.not_mem_nil, or_false, not_or] at h
   simp [brackets, closed, h, bind, Except.bind]
+
+theorem brackets_reject_second (a b : Char) (h : b ∉ ['(', ')', 'o', 'O', '[', ']', 'c', 'C']) :
+    brackets (some [a, b]) = .error .value := by
+  simp only [List.mem_cons, List.not_mem_nil, or_false, not_or] at h
+  simp only [brackets, List.isEmpty_cons, Bool.false_eq_true, if_false]
+  have hb : closed b = .error .value := by simp [closed, h]
+  cases ha : closed a with
+  | error e =>
+    have : e = .value := by
+      unfold closed at ha
+      split at ha
+      · cases ha
+      · split at ha <;> cases ha; rfl
+    simp [bind, Except.bind, this]
+  | ok v => simp [bind, Except.bind, hb]
 
 theorem brackets_reject_length (s : List Char) (h0 : s ≠ []) (h : s.length ≠ 2) : brackets (some s) = .error .value := by
   match s, h0, h with
@@ -62,15 +123,35 @@ theorem slice_iff {α} (df r : Rows α) (lb ub : Bound) (oc : Option (List Char)
 
 theorem slice_sublist {α} (df r : Rows α) (lb ub : Bound) (oc : Option (List Char))
     (hr : sliceOne df lb ub oc = .ok r) : r.Sublist df := by
-  unfold sliceOne at hr
-  split at hr
-  · cases hr; exact List.Sublist.refl _
-  · cases hb : brackets oc with
-    | error e => simp [hb, bind, Except.bind] at hr
-    | ok lu =>
-      simp only [hb, bind, Except.bind, pure, Except.pure] at hr
-      cases hr
-      exact List.filter_sublist.trans List.filter_sublist
+  cases hb : brackets oc with
+  | ok lu =>
+    rw [sliceOne_eq df lb ub oc lu.1 lu.2 hb] at hr
+    cases hr
+    exact List.filter_sublist
+  | error e =>
+    unfold sliceOne at hr
+    split at hr
+    · cases hr; exact List.Sublist.refl _
+    · simp [hb, bind, Except.bind] at hr
+
+/-- **the fast path**: on a non-decreasing index the pandas label slice `df[lb:ub]` the code takes when both
+    applicable brackets are closed holds exactly the rows with `lb ≤ t ≤ ub` (a missing label: no test), in order -/
+theorem label_slice_spec {α} (df : Rows α) (hs : (df.map (·.1)).Pairwise (· ≤ ·)) (a b : Option Int) :
+    labelSlice df a b = df.filter fun r =>
+      (match a with | some a => decide (a ≤ r.1) | Option.none => true) &&
+      (match b with | some b => decide (r.1 ≤ b) | Option.none => true) := labelSlice_eq_filter df hs a b
+
+theorem label_slice_iff {α} (df : Rows α) (hs : (df.map (·.1)).Pairwise (· ≤ ·)) (a b : Int) (x : Int × α) :
+    x ∈ labelSlice df (some a) (some b) ↔ x ∈ df ∧ a ≤ x.1 ∧ x.1 ≤ b := by
+  rw [label_slice_spec df hs]; simp [List.mem_filter]
+
+/-- ... and on any other order it is NOT that selection (F13: the unrepaired code took the label slice on every index):
+    on the decreasing index `3, 2, 1, 0` the rows with `1 ≤ t ≤ 2` are two, the label slice `[1:2]` is empty, and
+    `sliceOne` - which asks `index.is_monotonic_increasing` first - returns the two rows -/
+theorem label_slice_needs_sorted :
+    labelSlice [((3 : Int), 'a'), (2, 'b'), (1, 'c'), (0, 'd')] (some 1) (some 2) = [] ∧
+    sliceOne [((3 : Int), 'a'), (2, 'b'), (1, 'c'), (0, 'd')] (.date 1) (.date 2) (some ['[', ']']) = .ok [(2, 'b'), (1, 'c')] :=
+  ⟨rfl, rfl⟩
 
 /-- the four bracket pairs on date bounds, in plain inequalities -/
 theorem slice_dates_iff {α} (df : Rows α) (a b : Int) (l u : Bool) (oc : Option (List Char))
@@ -351,6 +432,35 @@ theorem stitch_source_general (dfs : List TS) (lb ub : Option (List Int)) (oc : 
     rw [piecesG_getElem dfs' lbs ubs n l u i hi (by omega) hl hu, framesOf_getElem_cols dfs' n hn i (by omega)]
     simp only [List.mem_filter, inWindow, Bool.and_eq_true]
     exact ⟨mem_concatCols.mpr ⟨hex, rfl⟩, hlo, hhi⟩
+
+/-- the same for the DEFAULT `n = 1` (a stitched Series), every spelling of the bounds: a row `(t, v)` of series `i`
+    (after `normalise`) appears exactly when `t` passes the two tests of piece `i` -/
+theorem stitch_source_general_series (dfs : List TS) (lb ub : Option (List Int)) (oc : Option (List Char)) (n : Nat) (hn : n ≤ 1)
+    (l u : Bool) (hb : brackets oc = .ok (l, u)) (dfs' : List TS) (lbs ubs : List (Option Int))
+    (hnorm : normalise dfs lb ub = .ok (dfs', lbs, ubs)) (h1 : lbs.length = dfs'.length) (h2 : ubs.length = dfs'.length)
+    (htwo : 2 ≤ dfs'.length) (F : Frame) (hF : stitch dfs lb ub oc n = .ok (some F)) (t : Int) (vs : List (Option Int)) :
+    (t, vs) ∈ F.rows ↔ ∃ i, ∃ hd : i < dfs'.length, ∃ hl : i < lbs.length, ∃ hu : i < ubs.length, ∃ v,
+      (t, v) ∈ dfs'[i] ∧ lbOk l (optDate lbs[i]) t = true ∧ ubOk u (optDate ubs[i]) t = true ∧
+      vs = padRow F.width [v] := by
+  have hpl := piecesG_length dfs' lbs ubs n l u h1 h2
+  have hfl := framesOf_length dfs' n
+  rw [stitch_general dfs lb ub oc n l u hb dfs' lbs ubs hnorm h1 h2, assemble_many _ (by omega)] at hF
+  cases hF
+  simp only [List.mem_flatMap, List.mem_map, Prod.mk.injEq]
+  constructor
+  · rintro ⟨f, hf, r, hr, rfl, rfl⟩
+    obtain ⟨i, hi, rfl⟩ := List.mem_iff_getElem.mp hf
+    rw [piecesG_getElem dfs' lbs ubs n l u i hi (by omega) (by omega) (by omega),
+      framesOf_getElem_series dfs' n hn i (by omega) (by omega)] at hr
+    simp only [List.mem_filter, inWindow, Bool.and_eq_true, ofTS, List.mem_map] at hr
+    obtain ⟨⟨p, hp, rfl⟩, hlo, hhi⟩ := hr
+    exact ⟨i, by omega, by omega, by omega, p.2, hp, hlo, hhi, rfl⟩
+  · rintro ⟨i, hd, hl, hu, v, hv, hlo, hhi, rfl⟩
+    have hi : i < (piecesG dfs' lbs ubs n l u).length := by omega
+    refine ⟨(piecesG dfs' lbs ubs n l u)[i], List.getElem_mem hi, (t, [v]), ?_, rfl, rfl⟩
+    rw [piecesG_getElem dfs' lbs ubs n l u i hi (by omega) hl hu, framesOf_getElem_series dfs' n hn i (by omega) hd]
+    simp only [List.mem_filter, inWindow, Bool.and_eq_true, ofTS, List.mem_map]
+    exact ⟨⟨(t, v), hv, rfl⟩, hlo, hhi⟩
 
 /-- lower bounds only: piece `i` is `(lb[i], lb[i+1]]`, the last one unbounded above -/
 theorem normalise_lb_only (dfs : List TS) (lb : List Int) (h : nonDecreasing lb = true) :
@@ -738,6 +848,226 @@ theorem unslice_restitch (dfs : List TS) (ub : List Int) (h : Stitchable dfs ub)
   · exact unslice_restitch_cols dfs ub h hstrict hs hnn n hn
   · exact unslice_restitch_series dfs ub h hstrict hnn n (by omega)
 
+theorem unslice_restitch_nan_cols (dfs : List TS) (ub : List Int) (h : Stitchable dfs ub) (hstrict : ub.Pairwise (· < ·))
+    (hs : ∀ s ∈ dfs, s.Sorted) (n : Nat) (hn : 1 < n) :
+    ∃ F U, stitch dfs Option.none (some ub) (some ['(', ']']) n = .ok (some F) ∧ unslice F ub = .ok U ∧
+      U.map (·.1) = ub ∧ stitch (U.map (·.2)) Option.none (some ub) (some ['(', ']']) n =
+        stitch (dfs.map nona) Option.none (some ub) (some ['(', ']']) n := by
+  obtain ⟨F, hF, _⟩ := stitch_eq dfs ub h (some ['(', ']']) n false true rfl
+  have hlen := h.len
+  have htwo := h.two
+  have hNlen : (dfs.map nona).length = dfs.length := List.length_map _
+  have hN : Stitchable (dfs.map nona) ub := ⟨by rw [hNlen]; exact h.len, h.two, h.inc⟩
+  obtain ⟨FN, hFN, _⟩ := stitch_eq (dfs.map nona) ub hN (some ['(', ']']) n false true rfl
+  have hWN := stitch_width (dfs.map nona) ub hN _ n hn false true rfl FN hFN
+  have hW := stitch_width dfs ub h _ n hn false true rfl F hF
+  -- the keys `df_unslice` groups by are the bounds, in order
+  have hkeys : ((rsOf F ub).map (·.1)).eraseDups.mergeSort (fun a b => decide (a ≤ b)) = ub := by
+    apply Bitemp.sortedLt_ext (dedupSort_sorted _) hstrict
+    intro u
+    rw [mem_dedupSort, List.mem_map]
+    constructor
+    · rintro ⟨⟨u', c⟩, hm, rfl⟩
+      obtain ⟨i, j, _, _, huj, _⟩ := mem_rsOf.mp hm
+      exact List.mem_of_getElem? huj
+    · intro hu
+      obtain ⟨k, hk, rfl⟩ := List.mem_iff_getElem.mp hu
+      exact ⟨(ub[k], _), mem_rsOf.mpr ⟨k, 0, hk, by omega, by simp [hk], rfl⟩, rfl⟩
+  let Us : List TS := ub.map fun u => nona (((rsOf F ub).filter (·.1 == u)).flatMap (·.2))
+  refine ⟨F, ub.map fun u => (u, nona (((rsOf F ub).filter (·.1 == u)).flatMap (·.2))), hF, ?_, ?_, ?_⟩
+  · rw [unslice_eq, hkeys]
+  · simp [List.map_map, Function.comp_def]
+  · have hmap : (ub.map fun u => (u, nona (((rsOf F ub).filter (·.1 == u)).flatMap (·.2)))).map (·.2) = Us := by
+      simp [Us, List.map_map, Function.comp_def]
+    rw [hmap]
+    have hUlen : Us.length = ub.length := by simp [Us]
+    have hU : Stitchable Us ub := ⟨hUlen, h.two, h.inc⟩
+    obtain ⟨F', hF', _⟩ := stitch_eq Us ub hU (some ['(', ']']) n false true rfl
+    have hW' := stitch_width Us ub hU _ n hn false true rfl F' hF'
+    rw [hF', hFN]
+    -- the recovered series agree with the original ones wherever the stitch looks at them
+    have hUk : ∀ k (hk : k < ub.length), Us[k]'(by omega) = nona (((rsOf F ub).filter (·.1 == ub[k])).flatMap (·.2)) := by
+      intro k hk; simp [Us]
+    have hUnn : ∀ k (hk : k < ub.length), ∀ p ∈ Us[k]'(by omega), p.2.isSome = true := by
+      intro k hk p hp
+      rw [hUk k hk] at hp
+      exact (List.mem_filter.mp hp).2
+    have hagree : ∀ i (hi : i < ub.length) (t : Int), inWindow false true (loBound ub i) (.date ub[i]) t = true →
+        ∀ j, j < n → ∀ (hij : i + j < ub.length),
+          (Us[i + j]'(by omega)).get t = ((dfs.map nona)[i + j]'(by omega)).get t ∧
+          (t ∈ (Us[i + j]'(by omega)).index ↔ t ∈ ((dfs.map nona)[i + j]'(by omega)).index) := by
+      intro i hi t hw j hj hij
+      have hNk : (dfs.map nona)[i + j]'(by omega) = nona (dfs[i + j]'(by omega)) := by simp
+      have hsN : (nona (dfs[i + j]'(by omega))).Sorted := by
+        have := hs _ (List.getElem_mem (by omega : i + j < dfs.length))
+        unfold TS.Sorted TS.index at this ⊢
+        exact this.sublist (List.Sublist.map _ List.filter_sublist)
+      rw [hNk]
+      apply get_agree t (hUnn _ hij) (fun p hp => (List.mem_filter.mp hp).2) hsN
+      intro x
+      rw [hUk _ hij, unslice_series dfs ub h hstrict hs n hn F hF (i + j) hij t x]
+      simp only [List.mem_filter, Option.isSome_some, and_true]
+      constructor
+      · exact fun hh => hh.1
+      · intro hh; exact ⟨hh, i, hi, by omega, by omega, hw⟩
+    have hcols : ∀ i (hi : i < ub.length) (t : Int), inWindow false true (loBound ub i) (.date ub[i]) t = true →
+        ((∃ s ∈ (Us.drop i).take n, t ∈ s.index) ↔ (∃ s ∈ ((dfs.map nona).drop i).take n, t ∈ s.index)) ∧
+        ((Us.drop i).take n).map (·.get t) = (((dfs.map nona).drop i).take n).map (·.get t) := by
+      intro i hi t hw
+      constructor
+      · constructor
+        · rintro ⟨s, hsm, hts⟩
+          obtain ⟨j, hj, hsj⟩ := mem_take_drop.mp hsm
+          have hij : i + j < ub.length := by rw [← hUlen]; exact (List.getElem?_eq_some_iff.mp hsj).1
+          have e : Us[i + j]'(by omega) = s := (List.getElem?_eq_some_iff.mp hsj).2
+          refine ⟨(dfs.map nona)[i + j]'(by omega), mem_take_drop.mpr ⟨j, hj, List.getElem?_eq_getElem _⟩, ?_⟩
+          exact ((hagree i hi t hw j hj hij).2).mp (by rw [e]; exact hts)
+        · rintro ⟨s, hsm, hts⟩
+          obtain ⟨j, hj, hsj⟩ := mem_take_drop.mp hsm
+          have hij : i + j < ub.length := by rw [← hlen, ← hNlen]; exact (List.getElem?_eq_some_iff.mp hsj).1
+          have e : (dfs.map nona)[i + j]'(by omega) = s := (List.getElem?_eq_some_iff.mp hsj).2
+          refine ⟨Us[i + j]'(by omega), mem_take_drop.mpr ⟨j, hj, List.getElem?_eq_getElem _⟩, ?_⟩
+          exact ((hagree i hi t hw j hj hij).2).mpr (by rw [e]; exact hts)
+      · apply List.ext_getElem
+        · simp only [List.length_map, List.length_take, List.length_drop]; omega
+        · intro j h1 h2
+          simp only [List.length_map, List.length_take, List.length_drop] at h1 h2
+          simp only [List.getElem_map, List.getElem_take, List.getElem_drop]
+          have hh := (hagree i hi t hw j (by omega) (by omega)).1
+          simpa using hh
+    -- both frames are strictly increasing in time and hold the same rows
+    have hsort : FN.rows.Pairwise (fun a b => a.1 < b.1) :=
+      stitch_once_of (dfs.map nona) ub hN _ n false true rfl (by simp) (framesOf_rows_sorted_cols (dfs.map nona) n hn) FN hFN
+    have hsort' : F'.rows.Pairwise (fun a b => a.1 < b.1) :=
+      stitch_once_of Us ub hU _ n false true rfl (by simp) (framesOf_rows_sorted_cols Us n hn) F' hF'
+    have hwidth : F'.width = FN.width := by rw [hWN, hW']
+    have hrows : F'.rows = FN.rows := by
+      apply rows_ext hsort' hsort
+      rintro ⟨t, vs⟩
+      rw [stitch_source Us ub hU _ n hn false true rfl F' hF' t vs,
+        stitch_source (dfs.map nona) ub hN _ n hn false true rfl FN hFN t vs]
+      constructor
+      · rintro ⟨i, hi, hex, hlo, hhi, hvs⟩
+        have hw : inWindow false true (loBound ub i) (.date ub[i]) t = true := by simp [inWindow, hlo, hhi]
+        obtain ⟨h1, h2⟩ := hcols i hi t hw
+        exact ⟨i, hi, h1.mp hex, hlo, hhi, by rw [hvs, h2, hwidth]⟩
+      · rintro ⟨i, hi, hex, hlo, hhi, hvs⟩
+        have hw : inWindow false true (loBound ub i) (.date ub[i]) t = true := by simp [inWindow, hlo, hhi]
+        obtain ⟨h1, h2⟩ := hcols i hi t hw
+        exact ⟨i, hi, h1.mpr hex, hlo, hhi, by rw [hvs, h2, hwidth]⟩
+    cases FN; cases F'
+    simp only at hwidth hrows
+    rw [hwidth, hrows]
+
+
+theorem unslice_restitch_nan_series (dfs : List TS) (ub : List Int) (h : Stitchable dfs ub) (hstrict : ub.Pairwise (· < ·))
+    (n : Nat) (hn : n ≤ 1) :
+    ∃ F U, stitch dfs Option.none (some ub) (some ['(', ']']) n = .ok (some F) ∧ unslice F ub = .ok U ∧
+      U.map (·.1) = ub ∧ stitch (U.map (·.2)) Option.none (some ub) (some ['(', ']']) n =
+        stitch (dfs.map nona) Option.none (some ub) (some ['(', ']']) n := by
+  obtain ⟨F, hF, _⟩ := stitch_eq dfs ub h (some ['(', ']']) n false true rfl
+  have hlen := h.len
+  have htwo := h.two
+  have hNlen : (dfs.map nona).length = dfs.length := List.length_map _
+  have hne : ub ≠ [] := by intro h0; simp [h0] at htwo
+  have hpl := pieces_length dfs ub n false true h.len hne
+  have hfl := framesOf_length dfs n
+  -- one column
+  have hW : F.width = 1 := by
+    have hF2 := hF
+    rw [stitch_ub_eq dfs ub (some ['(', ']']) n false true rfl h.inc h.len hne, assemble_many _ (by rw [hpl]; exact h.two)] at hF2
+    cases hF2
+    show (pieces dfs ub n false true).foldl (fun m f => max m f.width) 0 = 1
+    have hw : ∀ i (hi : i < (pieces dfs ub n false true).length), ((pieces dfs ub n false true)[i]).width = 1 := by
+      intro i hi
+      rw [pieces_getElem dfs ub n false true h.len i hi (by omega) (by omega),
+        framesOf_getElem_series dfs n hn i (by omega) (by omega)]
+    apply foldl_max_width _ _ _ 0 (by omega)
+    · right; exact ⟨(pieces dfs ub n false true)[0]'(by omega), List.getElem_mem _, hw 0 (by omega)⟩
+    · intro f hf
+      obtain ⟨i, hi, rfl⟩ := List.mem_iff_getElem.mp hf
+      rw [hw i hi]; omega
+  have hkeys := unslice_keys F ub hstrict (by omega)
+  -- what is filed under bound `k`
+  have hentry : ∀ k (hk : k < ub.length), nona (((rsOf F ub).filter (·.1 == ub[k])).flatMap (·.2)) =
+      (nona (dfs[k]'(by omega))).filter fun p => inWindow false true (loBound ub k) (.date ub[k]) p.1 := by
+    intro k hk
+    rw [rsOf_series F ub hW, entries_of_map _ _ ub[k] k (List.mem_range.mpr hk) List.nodup_range]
+    · simp only [List.getD_eq_getElem?_getD, List.getElem?_eq_getElem hk, Option.getD_some]
+      rw [slices_eq dfs ub h n F hF k hk, pieces_getElem dfs ub n false true h.len k (by omega) hk (by omega),
+        framesOf_getElem_series dfs n hn k (by omega) (by omega)]
+      rw [column_ofTS (dfs[k]'(by omega)) (fun t => inWindow false true (loBound ub k) (.date ub[k]) t) F.width]
+      simp only [nona, List.filter_filter]
+      congr 1; funext p; exact Bool.and_comm _ _
+    · intro i hi
+      have hi' : i < ub.length := List.mem_range.mp hi
+      simp only [List.getD_eq_getElem?_getD, List.getElem?_eq_getElem hi', Option.getD_some]
+      constructor
+      · intro e; exact getElem_inj_of_sorted hstrict hi' hk e
+      · rintro rfl; rfl
+  let Us : List TS := ub.map fun u => nona (((rsOf F ub).filter (·.1 == u)).flatMap (·.2))
+  refine ⟨F, ub.map fun u => (u, nona (((rsOf F ub).filter (·.1 == u)).flatMap (·.2))), hF, ?_, ?_, ?_⟩
+  · rw [unslice_eq, hkeys]
+  · simp [List.map_map, Function.comp_def]
+  · have hmap : (ub.map fun u => (u, nona (((rsOf F ub).filter (·.1 == u)).flatMap (·.2)))).map (·.2) = Us := by
+      simp [Us, List.map_map, Function.comp_def]
+    rw [hmap]
+    have hUlen : Us.length = ub.length := by simp [Us]
+    have hpl' := pieces_length Us ub n false true hUlen hne
+    have hfl' := framesOf_length Us n
+    -- the pieces cut from the recovered series are the pieces cut from the original ones
+    have hplN := pieces_length (dfs.map nona) ub n false true (by rw [hNlen]; exact h.len) hne
+    have hflN := framesOf_length (dfs.map nona) n
+    have hpieces : pieces Us ub n false true = pieces (dfs.map nona) ub n false true := by
+      apply List.ext_getElem
+      · rw [hplN, hpl']
+      · intro k h1 h2
+        have hk : k < ub.length := by omega
+        rw [pieces_getElem Us ub n false true hUlen k h1 hk (by omega),
+          pieces_getElem (dfs.map nona) ub n false true (by rw [hNlen]; exact h.len) k h2 hk (by omega),
+          framesOf_getElem_series Us n hn k (by omega) (by omega),
+          framesOf_getElem_series (dfs.map nona) n hn k (by omega) (by omega)]
+        have hUk : Us[k]'(by omega) = (nona (dfs[k]'(by omega))).filter fun p => inWindow false true (loBound ub k) (.date ub[k]) p.1 := by
+          simp only [Us, List.getElem_map]; exact hentry k hk
+        simp only [hUk, List.getElem_map]
+        congr 1
+        exact ofTS_filter_filter (nona (dfs[k]'(by omega))) (fun t => inWindow false true (loBound ub k) (.date ub[k]) t)
+    rw [stitch_ub_eq Us ub (some ['(', ']']) n false true rfl h.inc hUlen hne, hpieces,
+      ← stitch_ub_eq (dfs.map nona) ub (some ['(', ']']) n false true rfl h.inc (by rw [hNlen]; exact h.len) hne]
+
+
+/-- **unslice_restitch_nan** - the round trip WITHOUT the NaN-free hypothesis: whatever values the series hold (NaN
+    included), `df_unslice` returns one series per bound, in bound order, and stitching those again gives exactly the
+    frame stitched from the series with their NaN rows dropped (`dfs.map nona`).  For NaN-free series that is the frame
+    itself (`unslice_restitch`, `nona_of_nanfree`); with NaN values the two differ precisely in the rows that are NaN in
+    every column (known finding C13-N1, witness below). -/
+theorem unslice_restitch_nan (dfs : List TS) (ub : List Int) (h : Stitchable dfs ub) (hstrict : ub.Pairwise (· < ·))
+    (hs : ∀ s ∈ dfs, s.Sorted) (n : Nat) :
+    ∃ F U, stitch dfs Option.none (some ub) (some ['(', ']']) n = .ok (some F) ∧ unslice F ub = .ok U ∧
+      U.map (·.1) = ub ∧ stitch (U.map (·.2)) Option.none (some ub) (some ['(', ']']) n =
+        stitch (dfs.map nona) Option.none (some ub) (some ['(', ']']) n := by
+  by_cases hn : 1 < n
+  · exact unslice_restitch_nan_cols dfs ub h hstrict hs n hn
+  · exact unslice_restitch_nan_series dfs ub h hstrict n (by omega)
+
+/-- the NaN-free round trip is the special case -/
+theorem unslice_restitch_of_nan (dfs : List TS) (ub : List Int) (h : Stitchable dfs ub) (hstrict : ub.Pairwise (· < ·))
+    (hs : ∀ s ∈ dfs, s.Sorted) (hnn : ∀ s ∈ dfs, ∀ p ∈ s, p.2.isSome = true) (n : Nat) :
+    ∃ F U, stitch dfs Option.none (some ub) (some ['(', ']']) n = .ok (some F) ∧ unslice F ub = .ok U ∧
+      U.map (·.1) = ub ∧ stitch (U.map (·.2)) Option.none (some ub) (some ['(', ']']) n = .ok (some F) := by
+  obtain ⟨F, U, h1, h2, h3, h4⟩ := unslice_restitch_nan dfs ub h hstrict hs n
+  have hid : dfs.map nona = dfs := by
+    conv => rhs; rw [← List.map_id dfs]
+    apply List.map_congr_left
+    intro s hsm
+    exact nona_of_nanfree s (hnn s hsm)
+  rw [hid, h1] at h4
+  exact ⟨F, U, h1, h2, h3, h4⟩
+
+/-- witness for C13-N1 (series 0 holds NaN at time 1, no other column covers it): the stitched frame has the row
+    `1 ↦ NaN`, the re-stitched frame lacks it - the round trip clause fails on series with NaN values -/
+def nanSeries : List TS := [[(0, some 1), (1, none), (2, some 3)], [(3, some 4), (4, some 5)]]
+
 example : Stitchable demoSeriesT demoBoundsT ∧ demoBoundsT.Pairwise (· < ·) ∧ (∀ s ∈ demoSeriesT, s.Sorted) ∧
     (∀ s ∈ demoSeriesT, ∀ p ∈ s, p.2.isSome = true) := ⟨⟨rfl, by decide, rfl⟩, by decide, by decide, by decide⟩
 
@@ -765,6 +1095,17 @@ def okEq {α} [BEq α] (r : Res α) (x : α) : Bool := match r with | .ok y => y
         let g ← stitch (u.map (·.2)) Option.none (some demoBounds) (some ['(', ']']) 1
         pure (g == some f)
     | Option.none => pure false : Res Bool) true
+
+#guard okEq (stitch nanSeries Option.none (some [2, 5]) (some ['(', ']']) 1)
+  (some ⟨1, [(0, [some 1]), (1, [none]), (2, [some 3]), (3, [some 4]), (4, [some 5])]⟩)
+#guard okEq (do
+    let f ← stitch nanSeries Option.none (some [2, 5]) (some ['(', ']']) 1
+    match f with
+    | some f => do
+        let u ← unslice f [2, 5]
+        stitch (u.map (·.2)) Option.none (some [2, 5]) (some ['(', ']']) 1
+    | Option.none => pure Option.none : Res (Option Frame))
+  (some ⟨1, [(0, [some 1]), (2, [some 3]), (3, [some 4]), (4, [some 5])]⟩)
 
 theorem tod_range (t : Int) : 0 ≤ tod t ∧ tod t < DAY := ⟨tod_nonneg t, tod_lt t⟩
 
